@@ -1,0 +1,9 @@
+//go:build verif
+
+package configloader
+
+// VerifHandleUpdate delivers an informer event synchronously.
+func (c *ConfigMapLoader) VerifHandleUpdate(obj interface{}) { c.handleUpdate(obj) }
+
+// VerifHandleUpdate delivers an informer event synchronously.
+func (c *SecretLoader) VerifHandleUpdate(obj interface{}) { c.handleUpdate(obj) }
